@@ -627,11 +627,15 @@ Exec(s, S) ==
     [] s.k = "letn" -> SetVar(S, s.n, VNull(s.ty))
     [] s.k = "do"  -> Eval(s.e, S).S
     [] s.k = "print" \/ s.k = "put" ->
-         LET ra == EvalArgs(s.es, S, <<>>) IN
-         IF Failed(ra.S) THEN ra.S
-         ELSE LET Txt(v) == IF s.k = "put" /\ IsNull(v) THEN "" ELSE PrintText(v)   \* put writes nothing for null
-                  Cat[i \in 0..Len(ra.vs)] == IF i = 0 THEN "" ELSE Cat[i - 1] \o Txt(ra.vs[i])
-              IN  [ra.S EXCEPT !.out = @ \o Cat[Len(ra.vs)] \o (IF s.k = "print" THEN "\n" ELSE "")]
+         \* every expression is evaluated and written in turn (what a function called by a later one prints comes after the
+         \* text of the earlier ones; an error leaves what was written before it)
+         LET Txt(v) == IF s.k = "put" /\ IsNull(v) THEN "" ELSE PrintText(v)   \* put writes nothing for null
+             RECURSIVE Each(_, _)
+             Each(S1, j) == IF j > Len(s.es) THEN S1
+                            ELSE LET r == Eval(s.es[j], S1) IN
+                                 IF Failed(r.S) THEN r.S ELSE Each([r.S EXCEPT !.out = @ \o Txt(r.v)], j + 1)
+             S2 == Each(S, 1)
+         IN  IF Failed(S2) THEN S2 ELSE [S2 EXCEPT !.out = @ \o (IF s.k = "print" THEN "\n" ELSE "")]
     [] s.k = "if" -> IfChain(s.cs, s.el, S)
     [] s.k = "while" -> [WhileLoop(s, [S EXCEPT !.inloop = @ + 1], Fuel) EXCEPT !.inloop = S.inloop]
     [] s.k = "for" ->
